@@ -93,13 +93,15 @@ PROPS = {
     },
     "C04": {
         "runner": "Run04",
+        "spec_case_heads": ["rxcheck"],
         "theorems": ["C04_match_iff_language", "C04_residual_is_left_quotient", "C04_derivative_step",
                      "C04_normalisation_preserves_language", "C04_nullable_iff_empty_string", "C04_nonempty_has_witness",
                      "C04_nonempty_exact_without_and_not", "C04_forced_end", "C04_literal",
                      "C04_substring", "C04_substring_chars"],
         "rule": "random regex ASTs (literals incl. multi-byte characters, classes, concatenation, |, ?, *, +, {m,n}, &, ~) "
-                "printed as /regex/ or as Lark terminal expressions; strings = mask-guided walks on the implementation "
-                "(members), their mutations, random strings; single-byte and multi-byte vocabularies (tokens ending inside "
+                "printed as /regex/ or as Lark terminal expressions; terminals with the i flag on strings and regexes against "
+                "the expression with both cases written out; strings = mask-guided walks on the implementation "
+                "(members), their mutations (incl. one letter in the other case), random strings; single-byte and multi-byte vocabularies (tokens ending inside "
                 "a character). Verdicts (longest viable prefix, complete acceptance, allowed-token set after a prefix) "
                 "come from the extracted denotational matcher. distinct = distinct case text; non-trivial = all",
         "trusted_base": ["modelled, not verified: the regex engine is the external crate derivre; its contract is the textbook "
